@@ -205,6 +205,33 @@ def renparam_specs(srcs, rels, limit, rng):
     return out
 
 
+def movemethod_specs(srcs, rels, limit, rng):
+    """(class, method) pairs: an undecorated method whose name is defined once in the class and is not referenced by any
+    class-level statement may be moved to the end of the class body without changing behaviour"""
+    out = []
+    for rel in rels:
+        cands = []
+        for c in ast.walk(ast.parse(srcs[rel])):
+            if not isinstance(c, ast.ClassDef):
+                continue
+            names = collections.Counter(m.name for m in c.body if isinstance(m, (ast.FunctionDef, ast.AsyncFunctionDef)))
+            level = set()
+            for st in c.body:
+                if isinstance(st, (ast.FunctionDef, ast.AsyncFunctionDef)):
+                    for d in st.decorator_list:
+                        level.update(n.id for n in ast.walk(d) if isinstance(n, ast.Name))
+                    for d in st.args.defaults + [x for x in st.args.kw_defaults if x is not None]:
+                        level.update(n.id for n in ast.walk(d) if isinstance(n, ast.Name))
+                else:
+                    level.update(n.id for n in ast.walk(st) if isinstance(n, ast.Name))
+            for i, m in enumerate(c.body[:-1]):
+                if isinstance(m, (ast.FunctionDef, ast.AsyncFunctionDef)) and not m.decorator_list and names[m.name] == 1 and m.name not in level:
+                    cands.append(("movemethod", rel, c.lineno, c.name, m.name))
+        rng.shuffle(cands)
+        out += cands[:limit]
+    return out
+
+
 _SRCS = None
 
 
@@ -242,7 +269,13 @@ def build_variant(spec):
         return v_ifswap(srcs, spec[1])
     _, rel, lineno, fname, name = spec
     t2 = ast.parse(srcs[rel])
-    target = [f for f in ast.walk(t2) if isinstance(f, (ast.FunctionDef, ast.AsyncFunctionDef)) and f.lineno == lineno and f.name == fname][0]
+    target = ([f for f in ast.walk(t2) if isinstance(f, (ast.FunctionDef, ast.AsyncFunctionDef)) and f.lineno == lineno and f.name == fname] or [None])[0]
+    if kind == "movemethod":
+        c = [c for c in ast.walk(t2) if isinstance(c, ast.ClassDef) and c.lineno == lineno and c.name == fname][0]
+        m = [m for m in c.body if isinstance(m, (ast.FunctionDef, ast.AsyncFunctionDef)) and m.name == name][0]
+        c.body.remove(m)
+        c.body.append(m)
+        return {**srcs, rel: ast.unparse(t2) + "\n"}
     if kind == "renparam":
         # only the function's own parameter list and its body; defaults/annotations are evaluated outside
         for x in target.args.posonlyargs + target.args.args:
@@ -302,6 +335,8 @@ def main():
             print(f"{prop}: unchanged tree gives {code}: {msg}")
             continue
         specs = [("reformat",), ("shift",), ("noise",)] + rename_specs(srcs, sorted(consulted), max_rename, rng)
+        if "--movemethod" in sys.argv:
+            specs = movemethod_specs(srcs, sorted(consulted), max_rename, rng)
         if "--renparam" in sys.argv:
             specs = renparam_specs(srcs, sorted(consulted), max_rename, rng)
         if "--ifswap" in sys.argv:
